@@ -490,6 +490,54 @@ pub fn run_c16(tier: &str) -> i32 {
             rep.set("set_model_steps", json!(shapes.into_iter().collect::<Vec<_>>()));
         });
     }
+    // (d) directive-free text around a dependency directive: the file is processed in two passes
+    {
+        let lines = lines_over_tokens(2);
+        let is_dir: Vec<bool> = lines.iter().map(|l| classify(l).is_some()).collect();
+        let max_lines = if thorough { 2 } else { 1 };
+        sharded_dyn(&rep, par_threads(), |_k, _n, next, rep| {
+            let scratch = Scratch::new();
+            let base = scratch.p("p");
+            let stop = || rep.over_cap();
+            for_each_seq(lines.len(), max_lines, next, &stop, &mut |seq| {
+                if seq.is_empty() || seq.iter().any(|&i| is_dir[i]) {
+                    return;
+                }
+                let text: Vec<&str> = seq.iter().map(|&i| lines[i].as_str()).collect();
+                let body = text.join("\n");
+                for (pos, src, want) in [
+                    ("after", format!("TXTPP#include dep.txt\n{body}\n"), format!("D\n{body}\n")),
+                    ("before", format!("{body}\nTXTPP#include dep.txt\n"), format!("{body}\nD\n\n")),
+                ] {
+                    let _ = std::fs::remove_dir_all(&base);
+                    std::fs::create_dir_all(&base).unwrap();
+                    std::fs::write(base.join("dep.txt.txtpp"), "D\n").unwrap();
+                    std::fs::write(base.join("s.txt.txtpp"), &src).unwrap();
+                    let r = crate::ctl::run_canonical(txtpp::Config {
+                        base_dir: base.clone(),
+                        shell_cmd: String::new(),
+                        inputs: vec!["s.txt".into()],
+                        recursive: false,
+                        num_threads: 4,
+                        mode: Mode::Build,
+                        verbosity: txtpp::Verbosity::Quiet,
+                        trailing_newline: true,
+                    });
+                    rep.tv(1);
+                    rep.tr(1);
+                    rep.add("d_two_pass_texts", 1);
+                    let got = std::fs::read(base.join("s.txt")).ok();
+                    if !r.verdict.is_ok() || !r.clean() || got.as_deref() != Some(want.as_bytes()) {
+                        rep.violate(
+                            "text-modified-in-two-pass-file",
+                            format!("text {:?} {pos} a dependency directive: {} output {:?}, expected {:?}", text, r.verdict.kind(), got.as_ref().map(|x| show(x)), want),
+                            rj("C16", src.as_bytes(), json!({"part": "d", "expected_b64": b64(want.as_bytes())})),
+                        );
+                    }
+                }
+            });
+        });
+    }
     // (c) ordinary lines appear in order on the C01 spaces (core and extension alphabet)
     let l_c = if thorough { 4 } else { 3 };
     for (alpha, help) in [(SIGMA_CORE.to_vec(), helpers()), (SIGMA_EXT.to_vec(), helpers_ext())] {
@@ -580,6 +628,18 @@ pub fn replay(v: &serde_json::Value) -> bool {
             let tn = v["extra"]["tn"].as_bool().unwrap_or(true);
             let r = b.run(&src, Mode::Build, true, tn);
             println!("replay source {:?} tn={tn}: {} out={:?}", show(&src), r.v.kind(), r.out.as_ref().map(|x| show(x)));
+            if v["extra"]["part"].as_str() == Some("d") {
+                let scratch = Scratch::new();
+                let base = scratch.p("p");
+                std::fs::create_dir_all(&base).unwrap();
+                std::fs::write(base.join("dep.txt.txtpp"), "D\n").unwrap();
+                std::fs::write(base.join("s.txt.txtpp"), &src).unwrap();
+                let r = crate::ctl::run_canonical(txtpp::Config { base_dir: base.clone(), shell_cmd: String::new(), inputs: vec!["s.txt".into()], recursive: false, num_threads: 4, mode: Mode::Build, verbosity: txtpp::Verbosity::Quiet, trailing_newline: true });
+                let got = std::fs::read(base.join("s.txt")).ok();
+                let want = unb64(v["extra"]["expected_b64"].as_str().unwrap_or(""));
+                println!("replay: two-pass source {:?}: {} {:?}, expected {:?}", show(&src), r.verdict.kind(), got.as_ref().map(|x| show(x)), show(&want));
+                return !r.verdict.is_ok() || got.as_deref() != Some(&want[..]);
+            }
             if let Some(e) = v["extra"]["expected_b64"].as_str() {
                 let want = unb64(e);
                 println!("  expected {:?}", show(&want));
